@@ -289,6 +289,10 @@ func (pbm *BlockingModeCustomIP) toInternal() (m dnsmsg.BlockingMode, err error)
 	if err != nil {
 		return nil, fmt.Errorf("bad custom ipv4: %w", err)
 	} else if ipv4Addr.IsValid() {
+		if !ipv4Addr.Is4() {
+			return nil, fmt.Errorf("bad custom ipv4: %s is not an ipv4 address", ipv4Addr)
+		}
+
 		custom.IPv4 = []netip.Addr{ipv4Addr}
 	}
 
@@ -298,6 +302,10 @@ func (pbm *BlockingModeCustomIP) toInternal() (m dnsmsg.BlockingMode, err error)
 	if err != nil {
 		return nil, fmt.Errorf("bad custom ipv6: %w", err)
 	} else if ipv6Addr.IsValid() {
+		if !ipv6Addr.Is6() {
+			return nil, fmt.Errorf("bad custom ipv6: %s is not an ipv6 address", ipv6Addr)
+		}
+
 		custom.IPv6 = []netip.Addr{ipv6Addr}
 	}
 
